@@ -82,6 +82,9 @@ def spec(s) -> str:
         return f"{spec(s['x'])}.{s['name']}"
     if t == "cls":
         return s["name"]
+    if t == "reg":
+        c = s["c"]
+        return {"fn.": "functions.", "an.": "analytics."}.get(c[:3], "") + (c[3:] if c[:3] in ("fn.", "an.") else c)
     if t == "new":
         c = s["c"]
         c = {"fn.": "functions.", "an.": "analytics."}.get(c[:3], "") + (c[3:] if c[:3] in ("fn.", "an.") else c)
@@ -130,7 +133,10 @@ def program(prog, victim=None) -> str:
         elif k == "call":
             line = f"v{i} = v{op['r']}.{op['m']}({_args(op)})"
         elif k == "join":
-            j = f"v{op['r']}.join({spec(op['item'])}" + (", " + spec(op["how"]) if op.get("how") is not None else "") + ")"
+            if op.get("via"):
+                j = f"v{op['r']}.{op['via']}({spec(op['item'])})"
+            else:
+                j = f"v{op['r']}.join({spec(op['item'])}" + (", " + spec(op["how"]) if op.get("how") is not None else "") + ")"
             line = f"v{i} = {j}.{op['fin']}({_args(op)})"
         elif k == "render":
             m = op["mode"]
